@@ -143,6 +143,15 @@ fn hash_int_function(
     input.hash(&mut hasher);
     let hash = hasher.finish();
 
+    // std::fmt panics on a run-time width beyond u16::MAX
+    if allow_leading_zero && length > u16::MAX as usize {
+        return Err(tera::Error::msg(format!(
+            "hash_int length {} is too large (maximum {})",
+            length,
+            u16::MAX
+        )));
+    }
+
     let result = if allow_leading_zero {
         format!("{:0width$}", hash, width = length)
     } else {
